@@ -22,7 +22,8 @@ RULE = (
 )
 ASSUMPTIONS = [
     'argument values are JSON-like with string keys (the statement quantifies over JSON-distinguishable values)',
-    'signatures without *args/**kwargs/positional-only parameters; custom key functions are not generated',
+    'signatures without *args / positional-only parameters (a trailing **options is generated); custom key functions '
+    'are not generated',
     'a decorator-level cache object is private to one method (sharing one cache object between methods is not covered '
     'by the statement)',
 ]
@@ -73,8 +74,14 @@ def method_spec(draw, idx):
         k = draw(st.sampled_from(names))
         b[k] = draw(st.one_of(st.sampled_from(values.LOOKALIKES), ARG_VALUES, st.just(_mutate_leaf(b[k]))))
         pool.append(b)
+    var_kw = draw(st.integers(0, 3)) == 0
+    if var_kw:
+        # a trailing **options: extra keywords are arguments like any other (and so part of the binding)
+        for b in pool:
+            for extra in draw(st.lists(st.sampled_from(['top_k', 'opt']), max_size=2, unique=True)):
+                b[extra] = draw(st.one_of(st.integers(0, 2), st.sampled_from(['x', None])))
     return {'name': f'm{idx}', 'params': params, 'form': form, 'ignore': ignore, 'version': version, 'pool': pool,
-            'returns_none': draw(st.integers(0, 4)) == 0}
+            'returns_none': draw(st.integers(0, 4)) == 0, 'var_kw': var_kw}
 
 
 def _mutate_leaf(v):
@@ -142,6 +149,8 @@ def _src(methods):
                 sig.append('*')
                 seen_kw = True
             sig.append(p['name'] + (f'={p["default"]!r}' if p['has_default'] else ''))
+        if m.get('var_kw'):
+            sig.append('**options')
         deco_args = []
         if m['form'] == 'object':
             deco_args.append(f'_caches[{m["name"]!r}]')
@@ -150,7 +159,7 @@ def _src(methods):
         if m['version'] is not None:
             deco_args.append(f'version={m["version"]!r}')
         deco = '@cached' if m['form'] == 'bare' else ('@_shared' if m['form'] == 'shared' else f'@cached({", ".join(deco_args)})')
-        names = ', '.join(f'{p["name"]}={p["name"]}' for p in m['params'])
+        names = ', '.join([f'{p["name"]}={p["name"]}' for p in m['params']] + (['**options'] if m.get('var_kw') else []))
         ret = 'None' if m.get('returns_none') else 'r'
         lines += [f'    {deco}', f'    def {m["name"]}({", ".join(sig)}):',
                   f'        r = self._call({m["name"]!r}, dict({names}))', f'        return {ret}']
@@ -202,6 +211,9 @@ def eval_case(case, rec):
                 kwargs[nm] = val
             kwargs = {methods[op['m']]['params'][i]['name']: kwargs[methods[op['m']]['params'][i]['name']]
                       for i in op['kworder'] if methods[op['m']]['params'][i]['name'] in kwargs}
+            declared = {p['name'] for p in m['params']}
+            for extra in [k for k in binding if k not in declared]:
+                kwargs[extra] = copy.deepcopy(binding[extra])   # (collected by **options)
             ctl = {}
             if op['ctl'] == 'force':
                 ctl['force_cache'] = True
